@@ -1,12 +1,670 @@
-//! C05: harness module (stub — not built yet)
-#![allow(dead_code, unused_imports, unused_variables)]
+//! C05: scripted timer programs on real des simulations (feature `async`).
+//!
+//! A case is `case <id> mods=<k>` followed by task lines and a final `fin` line:
+//!
+//!   t <mod> <task> <expr>     append <expr> to the program of task <task> of module m<mod>
+//!   fin                       end of simulation: final time, unfinished joins per module
+//!
+//! All tasks of a module are spawned (`tokio::spawn` + `current().join`) in `at_sim_start`, i.e. at
+//! time 0 and again after every restart of the module. A task runs its lines in order.
+//! `<expr>` is a prefix term (fixed arities, all numbers decimal nanoseconds):
+//!
+//!   nop                         nothing
+//!   forever                     des::time::sleep(Duration::MAX).await  (deadline SimTime::MAX: never fires)
+//!   sleep D                     des::time::sleep(D).await                      obs `s`
+//!   until T                     des::time::sleep_until(T).await   (absolute)   obs `s`
+//!   timeout D E                 des::time::timeout(D, E).await                 obs `ok` | `el`
+//!   select E E                  tokio::select!{ biased; E0, E1 }; losers dropped  obs `w0` | `w1`
+//!   seq E E                     E0 then E1
+//!   new X D | newu X T          named pinned Sleep X (deadline now+D | T), not polled
+//!   poll X                      poll X exactly once                            obs `rdy` | `pnd` | `mis`
+//!   reset X D | resetu X T      X.reset(now+D | T)
+//!   drop X                      drop the named Sleep / Interval
+//!   await X                     (&mut X).await                                 obs `a` | `mis`
+//!   inew X P M D                X = interval_at(now+D, P) with MissedTickBehavior M in burst|delay|skip
+//!   tick X                      poll_fn(|cx| X.poll_tick(cx)).await (= X.tick().await)  obs `k<returned instant>` | `mis`
+//!   ireset X                    X.reset()
+//!   restart D                   first incarnation only: current().shutdow_and_restart_in(D)
+//!   halt                        current().shutdown()
+//!
+//! Observations are appended to the line that produced them: `<incarnation>.<obs>@<SimTime::now() ns>`.
+//! Transcript: `t … -> <obs> <obs> …` (`-` if none) and
+//! `fin -> time=<ns> unfinished=<n0>,<n1>,… cancelled=<n0>,… errs=<other errors>`: per module the number of
+//! `JoinError`s `NotFinished` (task still pending at the end) and `Tokio(cancelled)` (task of a shut-down incarnation).
 use crate::rng::Rng;
 use crate::util::{cases, guarded, hval};
+use des::net::module::Module;
+use des::net::JoinError;
+use des::prelude::*;
+use des::time::{self, Interval, MissedTickBehavior, Sleep};
+use std::collections::{BTreeMap, HashMap};
+use std::fmt::Write;
+use std::future::{poll_fn, Future};
+use std::pin::Pin;
+use std::sync::atomic::{AtomicUsize, Ordering};
+use std::sync::{Arc, Mutex};
+use std::task::Poll;
+use std::time::Duration;
 
-pub fn gen(_seed: u64, _count: usize, _thorough: bool) -> String {
-    String::new()
+#[derive(Clone, Debug)]
+enum E {
+    Nop,
+    Forever,
+    Sleep(u64),
+    Until(u64),
+    Timeout(u64, Box<E>),
+    Select(Box<E>, Box<E>),
+    Seq(Box<E>, Box<E>),
+    New(String, u64),
+    NewU(String, u64),
+    PollOnce(String),
+    Reset(String, u64),
+    ResetU(String, u64),
+    Drop(String),
+    Await(String),
+    INew(String, u64, u8, u64),
+    Tick(String),
+    IReset(String),
+    Restart(u64),
+    Halt,
 }
 
-pub fn exec(_input: &str) -> String {
-    String::new()
+fn parse(toks: &[&str], pos: &mut usize) -> Option<E> {
+    let t = *toks.get(*pos)?;
+    *pos += 1;
+    let num = |pos: &mut usize| -> Option<u64> {
+        let v = toks.get(*pos)?.parse::<u64>().ok()?;
+        *pos += 1;
+        Some(v)
+    };
+    let name = |pos: &mut usize| -> Option<String> {
+        let v = toks.get(*pos)?.to_string();
+        *pos += 1;
+        Some(v)
+    };
+    Some(match t {
+        "nop" => E::Nop,
+        "forever" => E::Forever,
+        "sleep" => E::Sleep(num(pos)?),
+        "until" => E::Until(num(pos)?),
+        "timeout" => {
+            let d = num(pos)?;
+            E::Timeout(d, Box::new(parse(toks, pos)?))
+        }
+        "select" => {
+            let a = parse(toks, pos)?;
+            let b = parse(toks, pos)?;
+            E::Select(Box::new(a), Box::new(b))
+        }
+        "seq" => {
+            let a = parse(toks, pos)?;
+            let b = parse(toks, pos)?;
+            E::Seq(Box::new(a), Box::new(b))
+        }
+        "new" => {
+            let x = name(pos)?;
+            E::New(x, num(pos)?)
+        }
+        "newu" => {
+            let x = name(pos)?;
+            E::NewU(x, num(pos)?)
+        }
+        "poll" => E::PollOnce(name(pos)?),
+        "reset" => {
+            let x = name(pos)?;
+            E::Reset(x, num(pos)?)
+        }
+        "resetu" => {
+            let x = name(pos)?;
+            E::ResetU(x, num(pos)?)
+        }
+        "drop" => E::Drop(name(pos)?),
+        "await" => E::Await(name(pos)?),
+        "inew" => {
+            let x = name(pos)?;
+            let p = num(pos)?;
+            let m = match *toks.get(*pos)? {
+                "burst" => 0,
+                "delay" => 1,
+                "skip" => 2,
+                _ => return None,
+            };
+            *pos += 1;
+            E::INew(x, p, m, num(pos)?)
+        }
+        "tick" => E::Tick(name(pos)?),
+        "ireset" => E::IReset(name(pos)?),
+        "restart" => E::Restart(num(pos)?),
+        "halt" => E::Halt,
+        _ => return None,
+    })
+}
+
+enum Named {
+    S(Pin<Box<Sleep>>),
+    I(Interval),
+}
+
+/// per-task interpreter context
+#[derive(Clone)]
+struct Ctx {
+    env: Arc<Mutex<HashMap<String, Named>>>,
+    log: Arc<Mutex<BTreeMap<usize, Vec<String>>>>, // script line number -> observations
+    line: usize,
+    inc: usize,
+}
+
+impl Ctx {
+    fn obs(&self, kind: &str) {
+        let ns = SimTime::now().as_nanos();
+        self.log
+            .lock()
+            .unwrap()
+            .entry(self.line)
+            .or_default()
+            .push(format!("{}.{}@{}", self.inc, kind, ns));
+    }
+}
+
+type BoxFut = Pin<Box<dyn Future<Output = ()> + Send>>;
+
+fn at(ns: u64) -> SimTime {
+    SimTime::from_duration(Duration::from_nanos(ns))
+}
+
+fn run(e: E, c: Ctx) -> BoxFut {
+    Box::pin(async move {
+        match e {
+            E::Nop => {}
+            E::Forever => {
+                time::sleep(Duration::MAX).await;
+                c.obs("s");
+            }
+            E::Sleep(d) => {
+                time::sleep(Duration::from_nanos(d)).await;
+                c.obs("s");
+            }
+            E::Until(t) => {
+                time::sleep_until(at(t)).await;
+                c.obs("s");
+            }
+            E::Timeout(d, inner) => {
+                let r = time::timeout(Duration::from_nanos(d), run(*inner, c.clone())).await;
+                c.obs(if r.is_ok() { "ok" } else { "el" });
+            }
+            E::Select(a, b) => {
+                let mut fa = run(*a, c.clone());
+                let mut fb = run(*b, c.clone());
+                let w = tokio::select! {
+                    biased;
+                    _ = &mut fa => 0,
+                    _ = &mut fb => 1,
+                };
+                drop(fa);
+                drop(fb);
+                c.obs(if w == 0 { "w0" } else { "w1" });
+            }
+            E::Seq(a, b) => {
+                run(*a, c.clone()).await;
+                run(*b, c.clone()).await;
+            }
+            E::New(x, d) => {
+                let s = Box::pin(time::sleep(Duration::from_nanos(d)));
+                let old = c.env.lock().unwrap().insert(x, Named::S(s));
+                drop(old);
+            }
+            E::NewU(x, t) => {
+                let s = Box::pin(time::sleep_until(at(t)));
+                let old = c.env.lock().unwrap().insert(x, Named::S(s));
+                drop(old);
+            }
+            E::PollOnce(x) => {
+                let env = c.env.clone();
+                let r = poll_fn(move |cx| {
+                    let mut g = env.lock().unwrap();
+                    Poll::Ready(match g.get_mut(&x) {
+                        Some(Named::S(s)) => Some(s.as_mut().poll(cx).is_ready()),
+                        _ => None,
+                    })
+                })
+                .await;
+                c.obs(match r {
+                    Some(true) => "rdy",
+                    Some(false) => "pnd",
+                    None => "mis",
+                });
+            }
+            E::Reset(x, d) => {
+                let mut g = c.env.lock().unwrap();
+                if let Some(Named::S(s)) = g.get_mut(&x) {
+                    s.as_mut().reset(SimTime::now() + Duration::from_nanos(d));
+                }
+            }
+            E::ResetU(x, t) => {
+                let mut g = c.env.lock().unwrap();
+                if let Some(Named::S(s)) = g.get_mut(&x) {
+                    s.as_mut().reset(at(t));
+                }
+            }
+            E::Drop(x) => {
+                let old = c.env.lock().unwrap().remove(&x);
+                drop(old);
+            }
+            E::Await(x) => {
+                let env = c.env.clone();
+                let r = poll_fn(move |cx| {
+                    let mut g = env.lock().unwrap();
+                    match g.get_mut(&x) {
+                        Some(Named::S(s)) => s.as_mut().poll(cx).map(|_| true),
+                        _ => Poll::Ready(false),
+                    }
+                })
+                .await;
+                c.obs(if r { "a" } else { "mis" });
+            }
+            E::INew(x, p, m, d) => {
+                let mut i = time::interval_at(
+                    SimTime::now() + Duration::from_nanos(d),
+                    Duration::from_nanos(p),
+                );
+                i.set_missed_tick_behavior(match m {
+                    0 => MissedTickBehavior::Burst,
+                    1 => MissedTickBehavior::Delay,
+                    _ => MissedTickBehavior::Skip,
+                });
+                let old = c.env.lock().unwrap().insert(x, Named::I(i));
+                drop(old);
+            }
+            E::Tick(x) => {
+                let env = c.env.clone();
+                let r = poll_fn(move |cx| {
+                    let mut g = env.lock().unwrap();
+                    match g.get_mut(&x) {
+                        Some(Named::I(i)) => i.poll_tick(cx).map(Some),
+                        _ => Poll::Ready(None),
+                    }
+                })
+                .await;
+                match r {
+                    Some(t) => c.obs(&format!("k{}", t.as_nanos())),
+                    None => c.obs("mis"),
+                }
+            }
+            E::IReset(x) => {
+                let mut g = c.env.lock().unwrap();
+                if let Some(Named::I(i)) = g.get_mut(&x) {
+                    i.reset();
+                }
+            }
+            E::Restart(d) => {
+                if c.inc == 0 {
+                    current().shutdow_and_restart_in(Duration::from_nanos(d));
+                }
+            }
+            E::Halt => current().shutdown(),
+        }
+    })
+}
+
+type Log = Arc<Mutex<BTreeMap<usize, Vec<String>>>>;
+
+struct M {
+    tasks: Vec<Vec<(usize, E)>>,
+    log: Log,
+    starts: Arc<AtomicUsize>,
+}
+
+impl Module for M {
+    fn reset(&mut self) {}
+    fn at_sim_start(&mut self, _stage: usize) {
+        let inc = self.starts.fetch_add(1, Ordering::SeqCst);
+        for prog in &self.tasks {
+            let prog = prog.clone();
+            let log = self.log.clone();
+            current().join(tokio::spawn(async move {
+                let env = Arc::new(Mutex::new(HashMap::new()));
+                for (line, e) in prog {
+                    let c = Ctx {
+                        env: env.clone(),
+                        log: log.clone(),
+                        line,
+                        inc,
+                    };
+                    run(e, c).await;
+                }
+                // named timers die with the task
+                let old: Vec<Named> = env.lock().unwrap().drain().map(|(_, v)| v).collect();
+                drop(old);
+            }));
+        }
+    }
+}
+
+fn exec_case(header: &str, body: &[String], out: &mut String) {
+    let nmods: usize = hval(header, "mods").and_then(|s| s.parse().ok()).unwrap_or(1).clamp(1, 8);
+    // module -> task tag -> lines
+    let mut progs: Vec<Vec<(String, Vec<(usize, E)>)>> = vec![Vec::new(); nmods];
+    let mut bad: Vec<usize> = Vec::new();
+    for (i, l) in body.iter().enumerate() {
+        let toks: Vec<&str> = l.split_whitespace().collect();
+        if toks.first() == Some(&"t") && toks.len() >= 4 {
+            let m: usize = match toks[1].parse() {
+                Ok(m) if m < nmods => m,
+                _ => {
+                    bad.push(i);
+                    continue;
+                }
+            };
+            let mut pos = 3;
+            match parse(&toks, &mut pos) {
+                Some(e) if pos == toks.len() => {
+                    let tag = toks[2].to_string();
+                    match progs[m].iter_mut().find(|(t, _)| *t == tag) {
+                        Some((_, v)) => v.push((i, e)),
+                        None => progs[m].push((tag, vec![(i, e)])),
+                    }
+                }
+                _ => bad.push(i),
+            }
+        } else if toks.first() != Some(&"fin") {
+            bad.push(i);
+        }
+    }
+    let log: Log = Arc::new(Mutex::new(BTreeMap::new()));
+    let res = guarded(|| {
+        let mut sim = Sim::new(());
+        for (m, tasks) in progs.iter().enumerate() {
+            sim.node(
+                format!("m{m}"),
+                M {
+                    tasks: tasks.iter().map(|(_, v)| v.clone()).collect(),
+                    log: log.clone(),
+                    starts: Arc::new(AtomicUsize::new(0)),
+                },
+            );
+        }
+        // the event bound only matters for broken builds that livelock (scripts need a few hundred events)
+        let rt = Builder::seeded(1).quiet().max_itr(200_000).build(sim.freeze());
+        let r = rt.run();
+        let now = SimTime::now().as_nanos();
+        let mut unfinished = vec![0usize; nmods];
+        let mut cancelled = vec![0usize; nmods];
+        let mut errs = 0usize;
+        match r {
+            Ok((_, t, _)) => {
+                if t.as_nanos() != now {
+                    errs += 1000;
+                }
+            }
+            Err(e) => {
+                for err in e.iter() {
+                    match err.as_any().downcast_ref::<JoinError>() {
+                        Some(j) if format!("{:?}", j.kind).starts_with("NotFinished") => {
+                            let p = j.path.to_string();
+                            match p.strip_prefix('m').and_then(|s| s.parse::<usize>().ok()) {
+                                Some(m) if m < nmods => unfinished[m] += 1,
+                                _ => errs += 1,
+                            }
+                        }
+                        Some(j) if format!("{:?}", j.kind).starts_with("Tokio") => {
+                            let p = j.path.to_string();
+                            match p.strip_prefix('m').and_then(|s| s.parse::<usize>().ok()) {
+                                Some(m) if m < nmods => cancelled[m] += 1,
+                                _ => errs += 1,
+                            }
+                        }
+                        _ => errs += 1,
+                    }
+                }
+            }
+        }
+        (now, unfinished, cancelled, errs)
+    });
+    let log = log.lock().unwrap();
+    for (i, l) in body.iter().enumerate() {
+        let toks: Vec<&str> = l.split_whitespace().collect();
+        if bad.contains(&i) {
+            writeln!(out, "{l} -> bad").unwrap();
+        } else if toks.first() == Some(&"fin") {
+            match &res {
+                Ok((now, unf, can, errs)) => {
+                    let u: Vec<String> = unf.iter().map(|n| n.to_string()).collect();
+                    let k: Vec<String> = can.iter().map(|n| n.to_string()).collect();
+                    writeln!(out, "fin -> time={} unfinished={} cancelled={} errs={}", now, u.join(","), k.join(","), errs).unwrap();
+                }
+                Err(msg) => {
+                    let m: String = msg.chars().map(|c| if c.is_whitespace() { '_' } else { c }).take(80).collect();
+                    writeln!(out, "fin -> panic={m}").unwrap();
+                }
+            }
+        } else {
+            let o = log.get(&i).map(|v| v.join(" ")).unwrap_or_else(|| "-".to_string());
+            writeln!(out, "{l} -> {o}").unwrap();
+        }
+    }
+}
+
+pub fn exec(input: &str) -> String {
+    let mut out = String::new();
+    for (header, body) in cases(input) {
+        writeln!(out, "{header}").unwrap();
+        exec_case(&header, &body, &mut out);
+        writeln!(out, "end").unwrap();
+    }
+    out
+}
+
+// ----------------------------------------------------------------------------- generator
+
+struct G {
+    r: Rng,
+    unit: u64,
+    far: bool,
+}
+
+impl G {
+    /// a duration: small multiples of the case's unit (many ties), sometimes off by one ns, far future
+    fn dur(&mut self) -> u64 {
+        let k = *self.r.pick(&[0u64, 1, 1, 2, 2, 3, 3, 4, 5, 5, 6, 8, 10, 10, 13]);
+        let base = k * self.unit;
+        match self.r.below(24) {
+            0 => base + 1,
+            1 => base.saturating_sub(1),
+            2 if self.far => 10_000_000_000_000 + base, // 10^4 s
+            3 if self.far => 3_600_000_000_000 * self.r.range(1, 3),
+            _ => base,
+        }
+    }
+    /// an absolute time
+    fn abs(&mut self) -> u64 {
+        let k = self.r.below(16);
+        k * self.unit
+    }
+    fn name(&mut self) -> String {
+        self.r.pick(&["x", "x", "y", "z"]).to_string()
+    }
+    fn iname(&mut self) -> String {
+        self.r.pick(&["i", "i", "j"]).to_string()
+    }
+    fn leaf(&mut self) -> String {
+        match self.r.below(20) {
+            0..=6 => format!("sleep {}", self.dur()),
+            7 => format!("until {}", self.abs()),
+            8 | 9 => format!("await {}", self.name()),
+            10 => format!("poll {}", self.name()),
+            11 => format!("reset {} {}", self.name(), self.dur()),
+            12 => format!("resetu {} {}", self.name(), self.abs()),
+            13 => format!("drop {}", self.name()),
+            14 => format!("new {} {}", self.name(), self.dur()),
+            15 => format!("tick {}", self.iname()),
+            16 => format!("newu {} {}", self.name(), self.abs()),
+            17 => if self.r.chance(1, 3) { "forever".to_string() } else { "nop".to_string() },
+            _ => format!("sleep {}", self.dur()),
+        }
+    }
+    fn expr(&mut self, depth: u32) -> String {
+        if depth == 0 {
+            return self.leaf();
+        }
+        match self.r.below(12) {
+            0 | 1 => format!("timeout {} {}", self.dur(), self.expr(depth - 1)),
+            2 | 3 => format!("select {} {}", self.expr(depth - 1), self.expr(depth - 1)),
+            4 => format!("seq {} {}", self.expr(depth - 1), self.expr(depth - 1)),
+            _ => self.leaf(),
+        }
+    }
+    /// a few lines following one of the deadline-order idioms
+    fn idiom(&mut self, out: &mut Vec<String>) {
+        match self.r.below(14) {
+            0 => {
+                // a timeout that does not fire, followed by a longer sleep (cancelled earlier than live)
+                let d = self.dur() + self.unit;
+                out.push(format!("timeout {} sleep {}", d + self.dur(), self.r.below(d.max(1))));
+                out.push(format!("sleep {}", d + self.dur()));
+            }
+            1 => {
+                // poll once, drop, then a later deadline
+                let x = self.name();
+                out.push(format!("new {} {}", x, self.dur() + 1));
+                out.push(format!("poll {x}"));
+                out.push(format!("drop {x}"));
+                out.push(format!("sleep {}", self.dur() + self.unit));
+            }
+            2 => {
+                // reset to earlier / later / the past after registration
+                let x = self.name();
+                out.push(format!("new {} {}", x, 5 * self.unit));
+                out.push(format!("poll {x}"));
+                if self.r.chance(1, 2) {
+                    out.push(format!("sleep {}", self.unit));
+                }
+                match self.r.below(4) {
+                    0 => out.push(format!("reset {} {}", x, self.unit)),
+                    1 => out.push(format!("reset {} {}", x, 9 * self.unit)),
+                    2 => out.push(format!("resetu {} {}", x, 0)),
+                    _ => out.push(format!("reset {} {}", x, self.dur())),
+                }
+                if self.r.chance(3, 4) {
+                    out.push(format!("await {x}"));
+                } else {
+                    out.push(format!("sleep {}", self.dur()));
+                    out.push(format!("await {x}"));
+                }
+            }
+            3 => {
+                // select of sleeps; the loser is dropped; continue with a later one
+                out.push(format!("select sleep {} sleep {}", self.dur(), self.dur()));
+                out.push(format!("sleep {}", self.dur()));
+            }
+            4 => {
+                // named timer raced against sleeps in a loop (the classic reset pattern)
+                let x = self.name();
+                out.push(format!("new {} {}", x, self.dur() + self.unit));
+                for _ in 0..self.r.range(1, 3) {
+                    out.push(format!("select await {} sleep {}", x, self.dur()));
+                    if self.r.chance(1, 2) {
+                        out.push(format!("reset {} {}", x, self.dur()));
+                    }
+                }
+                out.push(format!("await {x}"));
+            }
+            5 | 6 => {
+                // interval with late / on-time / missed ticks
+                let i = self.iname();
+                let p = *self.r.pick(&[10_000_000u64, 10_000_000, 4_000_000, 1_000_000_000, 7_000_000]);
+                let m = *self.r.pick(&["burst", "delay", "skip"]);
+                let d = if self.r.chance(1, 2) { 0 } else { self.r.below(3) * p / 2 };
+                out.push(format!("inew {i} {p} {m} {d}"));
+                for _ in 0..self.r.range(2, 6) {
+                    out.push(format!("tick {i}"));
+                    match self.r.below(8) {
+                        0 => out.push(format!("sleep {}", p / 2)),
+                        1 => out.push(format!("sleep {}", 2 * p + p / 2)),
+                        2 => out.push(format!("sleep {}", p + 5_000_000)),
+                        3 => out.push(format!("sleep {}", p + 5_000_001)),
+                        4 => out.push(format!("sleep {}", 3 * p)),
+                        5 => out.push(format!("ireset {i}")),
+                        _ => {}
+                    }
+                }
+            }
+            7 => {
+                // timers created after one fired, equal deadlines
+                let d = self.dur();
+                out.push(format!("sleep {d}"));
+                out.push(format!("sleep {d}"));
+                out.push(format!("timeout {} sleep {}", d, d));
+            }
+            8 => {
+                // timeout that elapses, inner sleep dropped while later timers are pending
+                let d = self.dur();
+                out.push(format!("timeout {} sleep {}", d, d + self.dur() + 1));
+                out.push(format!("sleep {}", self.dur()));
+            }
+            9 => {
+                out.push(format!("timeout {} select sleep {} sleep {}", self.dur(), self.dur(), self.dur()));
+                out.push(format!("sleep {}", self.dur()));
+            }
+            10 => {
+                // already reached deadlines
+                out.push(format!("until {}", 0));
+                out.push("sleep 0".to_string());
+                out.push(format!("timeout 0 sleep {}", self.r.below(2)));
+            }
+            _ => {
+                let e = self.expr(2);
+                out.push(e);
+            }
+        }
+    }
+}
+
+pub fn gen(seed: u64, count: usize, thorough: bool) -> String {
+    let mut r = Rng::new(seed);
+    let mut out = String::new();
+    for k in 0..count {
+        let mut g = G {
+            r: r.fork(),
+            unit: 1,
+            far: false,
+        };
+        g.unit = *g.r.pick(&[1_000_000u64, 1_000_000, 1_000_000_000, 7_000_000, 2_500_000]);
+        g.far = g.r.chance(1, 6);
+        let nmods = g.r.range(1, 3) as usize;
+        writeln!(out, "case {k} mods={nmods}").unwrap();
+        let mut lines: Vec<(usize, String, Vec<String>)> = Vec::new();
+        let shutdown_mod = if g.r.chance(1, 4) { Some(g.r.below(nmods as u64) as usize) } else { None };
+        for m in 0..nmods {
+            let ntasks = if thorough { g.r.range(1, 6) } else { *g.r.pick(&[1u64, 1, 2, 2, 3, 4, 6]) };
+            let restart_task = g.r.below(ntasks);
+            for t in 0..ntasks {
+                let tag = format!("{}", (b'A' + t as u8) as char);
+                let mut prog = Vec::new();
+                let n = if thorough { g.r.range(1, 5) } else { g.r.range(1, 3) };
+                for _ in 0..n {
+                    g.idiom(&mut prog);
+                }
+                if shutdown_mod == Some(m) && t == restart_task {
+                    let at = g.r.below(prog.len() as u64 + 1) as usize;
+                    let op = if g.r.chance(1, 5) { "halt".to_string() } else { format!("restart {}", g.dur()) };
+                    prog.insert(at, op);
+                }
+                lines.push((m, tag, prog));
+            }
+        }
+        // interleave the tasks' lines (order inside a task is kept)
+        let mut idx = vec![0usize; lines.len()];
+        loop {
+            let live: Vec<usize> = (0..lines.len()).filter(|&i| idx[i] < lines[i].2.len()).collect();
+            if live.is_empty() {
+                break;
+            }
+            let i = *g.r.pick(&live);
+            writeln!(out, "t {} {} {}", lines[i].0, lines[i].1, lines[i].2[idx[i]]).unwrap();
+            idx[i] += 1;
+        }
+        writeln!(out, "fin").unwrap();
+        writeln!(out, "end").unwrap();
+    }
+    out
 }
